@@ -236,6 +236,16 @@ def main():
                                 items.append(("pre", variant, part, singles, n, sp1, sp2, mt))
                             if sp1 == sp2 and n == 2 and len(sp1) <= 2:
                                 items.append(("pre", variant, part, singles, n, sp1, sp2, mt))
+    # third-order precursor overlap of the lowest class (symmetry under exchange of the index
+    # sets) and third-order orthonormality with first-order singles
+    for variant, spaces in SPACES.items():
+        lo = spaces[0]
+        mt = (max(2, lo.count("h")), max(2, lo.count("p")))
+        for part in ("mp",) if quick else ("mp", "re"):
+            for singles in (False, True):
+                items.append(("pre", variant, part, singles, 3, lo, lo, mt))
+                if quick and singles:
+                    items.append(("isr", variant, part, singles, 3, lo, lo, mt))
     # triples classes (two lower classes): overlaps with the lowest and the doubles class
     TRIPLES = {"pp": ("ph", "pphh", "ppphhh"), "ip": ("h", "phh", "pphhh"), "ea": ("p", "pph", "ppphh")}
     for variant, (low, dbl, tri) in TRIPLES.items():
